@@ -6,7 +6,7 @@ from .common import viol, h, compact_case, extra_levels
 
 ID = 'C11'
 CLAIM = ('the one-connection-per-host-key-type probe protocol runs against simulated servers whose key rings are built byte-by-byte by an independent encoder: RSA moduli on the '
-         '64-bit grid 512..16384 (dense around 2048/3072), Ed25519, Ed448, ECDSA, DSS, RSA and Ed25519 certificates signed by RSA / Ed25519 / ECDSA CAs, every subset and order '
+         '64-bit grid 512..16384 (dense around 2048/3072) and, for 30 % of them, on arbitrary sizes (the neighbours of the two thresholds, sizes whose encoding is as long as that of a larger key, odd sizes), Ed25519, Ed448, ECDSA, DSS, RSA and Ed25519 certificates signed by RSA / Ed25519 / ECDSA CAs, every subset and order '
          'of the RSA family; reported sizes, CA details, fingerprints and size notes are compared with the blobs the server really presented; a faulty campaign asserts only '
          'that a reported size / fingerprint is one the server presented')
 TRUST = ('trusted base: the independent blob encoder/decoder (RFC 4253, 5656, 8709, PROTOCOL.certkeys) pinned by the real key files of the Docker suite (fidelity anchors); '
@@ -15,10 +15,10 @@ TECHNIQUE = 'deterministic simulation of the multi-connection probe protocol; hi
 LEVEL = 'exploration'
 BUDGET = {'quick': 200, 'thorough': 2400}
 NCASES = {'quick': 1200, 'thorough': 12000}
-RULE = ('cases: key ring (RSA size on the 64-bit grid; cert host/CA type and size), host-key list = seeded subset/order of RSA family + other types + certificate types, probe '
+RULE = ('cases: key ring (RSA size on the 64-bit grid or arbitrary; cert host/CA type and size), host-key list = seeded subset/order of RSA family + other types + certificate types, probe '
         'kex (curve25519 mostly; DH groups and GEX sampled), rendering (text/verbose/JSON); 25% of cases add probe-phase faults; every 8th fault-free case probes the server while a second server with other keys is probed by another worker thread of the same invocation (seeded schedule, half with line-level pre-emption). non-trivial: a host-key reply was parsed; distinct '
         'by (key types, RSA size, CA type, CA size, RSA-family subset/order).')
-ASSUMPTIONS = ['size notes are the fail/warn notes a report shows beyond the static database entry of the algorithm (wording not judged)', 'RSA sizes are on the 64-bit grid (the quantifier); a certificate signed by an ECDSA P-521 CA is a listed known finding (528 instead of 521)',
+ASSUMPTIONS = ['size notes are the fail/warn notes a report shows beyond the static database entry of the algorithm (wording not judged)', 'RSA sizes: 70 % on the 64-bit grid 512..16384, 30 % arbitrary (threshold neighbours 2040..2056 / 3064..3080, odd sizes)',
                ]
 
 TWO2K = '2048-bit modulus only provides 112-bits of symmetric strength'
@@ -31,6 +31,10 @@ ECBITS = {'ecdsa-sha2-nistp256': 256, 'ecdsa-sha2-nistp384': 384, 'ecdsa-sha2-ni
 
 def rsa_bits(rng, tier):
     r = rng.random()
+    if rng.random() < 0.3:
+        # any size at all, not only the usual multiples of 64: the sizes next to the two thresholds, sizes whose encoding takes as many
+        # bytes as a larger key's (2040 / 2048), odd sizes
+        return rng.choice([2040, 2041, 2047, 2049, 2055, 2056, 3064, 3065, 3071, 3073, 3079, 3080, 1023, 1025, 4095, rng.randrange(512, 8193)])
     if r < 0.35:
         return rng.choice([1984, 2048, 2112, 3008, 3072, 3136])
     if r < 0.9:
